@@ -23,6 +23,7 @@ CONSTANTS Params,    \* set of case parameters (supplied by Gen_*/MC_* modules)
           FixPool,   \* Execute starts with no content closure (repaired design)
           RetKeep,   \* an invalid sub-result does not clobber a pending return value
           ExecFull,  \* exec/includeIfExists render the root ancestor (repaired F21)
+          FixIsSet,  \* isset restores scope/context/content/writer when it swallows a failure (repaired F41)
           AnyFail    \* an error may be raised before any step (model checking only)
 
 Unset == "<unset>"
@@ -480,25 +481,29 @@ IncludeExit ==
 \* {{ n := exec("t" [, ctx]) }} (s.op = "execlet") and {{ includeIfExists("t" [, ctx]) }} (s.op = "incif")
 DoExec(s) ==
   LET isLet == s.op = "execlet"
+      isIE  == s.op = "issetexec"       \* {{ isset(exec("t")[0]) }}: a failure of the exec'd template is swallowed
       ls == IF isLet /\ ~F.opened THEN NewScope(heap, cur) ELSE [heap |-> heap, cur |-> cur]
       fo == IF isLet /\ ~F.opened THEN [frames EXCEPT ![Top].opened = TRUE, ![Top].sc = cur] ELSE frames
   IN IF ~HasTmpl(s.n2)
      THEN IF isLet
           THEN /\ Raise("template-exec", s.id) /\ heap' = ls.heap /\ cur' = ls.cur /\ frames' = fo
                /\ UNCHANGED <<ctx, contents, content, bufs, writer, out, rv>>
+          ELSE IF isIE
+          THEN /\ LET w == WriteTo(writer, "V:false", out, bufs) IN out' = w.out /\ bufs' = w.bufs
+               /\ frames' = AdvancePC /\ UNCHANGED <<heap, cur, ctx, contents, content, writer, rv, err, mode>>
           ELSE frames' = AdvancePC /\ UNCHANGED <<heap, cur, ctx, contents, content, bufs, writer, out, rv, err, mode>>
      ELSE LET ns == NewScope(ls.heap, ls.cur)
               h2 == [ns.heap EXCEPT ![ns.cur].blocks = s.n2]
               cx == IF s.e.k = "none" THEN [ok |-> TRUE, v |-> ctx, class |-> ""] ELSE Eval(s.e, ls.heap, ls.cur, ctx)
               root == IF ExecFull THEN RootOf(s.n2) ELSE OneUp(s.n2)
-              fe == [Fr("exec", <<>>, s) EXCEPT !.cx = ctx, !.hascx = (s.e.k # "none"), !.wr = writer, !.gsc = ls.cur, !.sc = ls.cur]
+              fe == [Fr("exec", <<>>, s) EXCEPT !.cx = ctx, !.hascx = (s.e.k # "none"), !.wr = writer, !.gsc = ls.cur, !.sc = ls.cur, !.ct = content]
           IN IF ~cx.ok
              THEN /\ Raise(cx.class, s.id) /\ heap' = ls.heap /\ cur' = ls.cur /\ frames' = fo
                   /\ UNCHANGED <<ctx, contents, content, bufs, writer, out, rv>>
              ELSE /\ heap' = h2 /\ cur' = ns.cur /\ ctx' = cx.v /\ rv' = ""
-                  /\ writer' = IF isLet THEN -1 ELSE writer
+                  /\ writer' = IF isLet \/ isIE THEN -1 ELSE writer
                   /\ frames' = fo \o <<fe, [Fr("list", TmplNamed(root).body, s) EXCEPT !.gsc = ns.cur, !.gcx = cx.v,
-                                                !.gwr = IF isLet THEN -1 ELSE writer]>>
+                                                !.gwr = IF isLet \/ isIE THEN -1 ELSE writer]>>
                   /\ UNCHANGED <<contents, content, bufs, out, err, mode>>
 
 ExecExit ==
@@ -509,7 +514,10 @@ ExecExit ==
      /\ cur' = c1
      /\ heap' = IF s.op = "execlet" /\ s.n # "_" THEN Bind(heap, c1, s.n, IF rv = "" THEN Nil ELSE rv) ELSE heap
      /\ frames' = Resume(Pop(frames), "", FALSE)
-     /\ UNCHANGED <<contents, content, bufs, out, rv, err, mode>>
+     /\ IF s.op = "issetexec"        \* the returned value is indexed: strings have a first byte, nil has not
+        THEN LET w == WriteTo(F.wr, IF rv = "" THEN "V:false" ELSE "V:true", out, bufs) IN out' = w.out /\ bufs' = w.bufs
+        ELSE UNCHANGED <<bufs, out>>
+     /\ UNCHANGED <<contents, content, rv, err, mode>>
 
 DoReturn(s) ==
   LET r == Eval(s.e, heap, cur, ctx) IN
@@ -565,7 +573,7 @@ Exec(s) ==
     [] s.op = "yield"    -> DoYield(s)
     [] s.op = "ycontent" -> DoYContent(s)
     [] s.op = "include"  -> DoInclude(s)
-    [] s.op \in {"execlet", "incif"} -> DoExec(s)
+    [] s.op \in {"execlet", "incif", "issetexec"} -> DoExec(s)
     [] s.op = "return"   -> DoReturn(s)
     [] s.op = "api"      -> DoApi(s)
 
@@ -618,12 +626,22 @@ Unwind ==
             /\ cur' = F.sc
             /\ frames' = Pop(frames)
             /\ UNCHANGED <<heap, contents, content, bufs, writer, out, rv, err, mode>>
-       [] F.k = "exec" ->
+       [] F.k = "exec" /\ F.st.op # "issetexec" ->
             /\ ctx' = IF F.hascx THEN F.cx ELSE ctx
             /\ writer' = F.wr
             /\ cur' = F.sc
             /\ frames' = Pop(frames)
             /\ UNCHANGED <<heap, contents, content, bufs, out, rv, err, mode>>
+       [] F.k = "exec" /\ F.st.op = "issetexec" ->
+            \* exec's deferred restores run, then isset's recover swallows the failure: the expression is false
+            /\ ctx' = IF FixIsSet THEN F.cx ELSE ctx
+            /\ content' = IF FixIsSet THEN F.ct ELSE content
+            /\ writer' = F.wr
+            /\ cur' = F.sc
+            /\ LET w == WriteTo(F.wr, "V:false", out, bufs) IN out' = w.out /\ bufs' = w.bufs
+            /\ err' = NoErr /\ mode' = "run"
+            /\ frames' = Resume(Pop(frames), "", FALSE)
+            /\ UNCHANGED <<heap, contents, rv>>
        [] F.k = "try" -> TryCatch
   /\ UNCHANGED Ctl
 
@@ -643,6 +661,11 @@ TryRestoresState ==
   [][ (mode = "unwind" /\ Top >= 1 /\ F.k = "try") =>
         /\ writer' = F.wr /\ ctx' = F.cx /\ content' = F.ct
         /\ (IF F.st.f = "catch" /\ F.st.n # "" THEN heap'[cur'].parent ELSE cur') = F.sc ]_vars
+
+\* isset swallowing a failure leaves everything as it was when the expression began (C07, C09)
+IsSetRestoresState ==
+  [][ (mode = "unwind" /\ Top >= 1 /\ F.k = "exec" /\ F.st.op = "issetexec") =>
+        /\ writer' = F.wr /\ ctx' = F.cx /\ content' = F.ct /\ cur' = F.sc ]_vars
 
 \* output is append-only: nothing written is ever taken back, nothing is inserted
 AppendOnly == [][ mode = "run" /\ mode' = "run" => SubSeq(out', 1, Len(out)) = out ]_vars
